@@ -28,6 +28,9 @@ struct Ev
 static std::vector<Ev> gLog;
 static std::string gServeFile; // non-empty: every request is answered with this file (Http::serveFile)
 static int gHandlerTimeoutMs = 0; // > 0: the handler arms a response time-out (ResponseWriter::timeoutAfter) before answering
+static bool gPark = false;        // the handler does not answer: it keeps the ResponseWriter (time-out armed) until the end of the history
+static bool gParkNow = true;      // (off for the probe connections after the history)
+static std::vector<std::shared_ptr<Http::ResponseWriter>> gParked;
 
 class RecHandler : public Http::Handler
 {
@@ -50,6 +53,15 @@ public:
     void onRequest(const Http::Request& req, Http::ResponseWriter w) override
     {
         gLog.push_back(Ev { (size_t)-1, E_REQUEST, 0 });
+        if (gPark && gParkNow)
+        {
+            // an asynchronous handler: the writer moves to the heap, the time-out is armed there, nothing is sent
+            auto pw = std::make_shared<Http::ResponseWriter>(std::move(w));
+            if (gHandlerTimeoutMs > 0)
+                pw->timeoutAfter(std::chrono::milliseconds(gHandlerTimeoutMs));
+            gParked.push_back(pw);
+            return;
+        }
         if (gHandlerTimeoutMs > 0)
             w.timeoutAfter(std::chrono::milliseconds(gHandlerTimeoutMs));
         if (!gServeFile.empty())
@@ -82,8 +94,11 @@ enum Act { A_CONNECT,
            A_TICK_RST,
            // environment fault: the next write of the server on that connection fails with ECONNRESET (a reset that
            // reaches the socket between the readiness report and the write)
-           A_FAIL_WRITE };
-static const char* kActNames[] = { "connect", "send-first-half", "send-rest", "send-request", "read", "close", "shutdown-wr", "rst", "hold-writes", "release-writes", "tick", "send-first-half+close", "send-request+close", "send-request+shutdown-wr", "send-request+rst", "tick+send-request", "tick+send-rest", "tick+close", "tick+rst", "next-write-fails" };
+           A_FAIL_WRITE,
+           // environment fault: the server's next read on that connection fails with ETIMEDOUT (the peer vanished); the
+           // client then sends a byte so that the server does read
+           A_FAIL_READ };
+static const char* kActNames[] = { "connect", "send-first-half", "send-rest", "send-request", "read", "close", "shutdown-wr", "rst", "hold-writes", "release-writes", "tick", "send-first-half+close", "send-request+close", "send-request+shutdown-wr", "send-request+rst", "tick+send-request", "tick+send-rest", "tick+close", "tick+rst", "next-write-fails", "next-read-fails+send-byte" };
 struct Step
 {
     int8_t act, conn;
@@ -156,6 +171,8 @@ static void gen(History& h, CState c[2], int nconn, int depth, int maxDepth)
             {
                 if (!s.failArmed)
                     push(A_FAIL_WRITE, k, [](CState& x) { x.failArmed = true; });
+                if (s.st == 1)
+                    push(A_FAIL_READ, k, [](CState& x) { x.st = 3; });
                 if (!s.held)
                     push(A_HOLD, k, [](CState& x) { x.held = true; });
                 else
@@ -213,6 +230,8 @@ static bool still_that_peer(sim::Server& srv, int fd, size_t id)
 static void run_history(const History& h, vr::Ctx& ctx, uint64_t& steps)
 {
     gLog.clear();
+    gParked.clear();
+    gParkNow = true;
     Run r;
     auto handler = Http::make_handler<RecHandler>();
     auto opts    = Http::Endpoint::options().flags(Tcp::Options::ReuseAddr | Tcp::Options::NoDelay).maxRequestSize(4096).headerTimeout(std::chrono::seconds(1)).bodyTimeout(std::chrono::seconds(2));
@@ -326,6 +345,16 @@ static void run_history(const History& h, vr::Ctx& ctx, uint64_t& steps)
             if (r.serverFd[st.conn] >= 0 && still_that_peer(r.srv, r.serverFd[st.conn], r.peerId[st.conn]))
                 sim::fail_next_write(r.serverFd[st.conn], ECONNRESET);
             break;
+        case A_FAIL_READ:
+            if (r.serverFd[st.conn] >= 0 && still_that_peer(r.srv, r.serverFd[st.conn], r.peerId[st.conn]))
+            {
+                sim::fail_next_read(r.serverFd[st.conn], ETIMEDOUT);
+                c->send_bytes("G");
+                after(true);
+                c->reset(); // (the client end goes too: the history treats the connection as gone)
+                after(false);
+            }
+            break;
         }
     }
     // epilogue: everybody leaves, time passes, loops run dry
@@ -344,6 +373,8 @@ static void run_history(const History& h, vr::Ctx& ctx, uint64_t& steps)
         for (auto& t : r.srv.transports())
             peersNow += t->peers.size();
         size_t fdsNow0 = sim::list_fds().size();
+        if (gPark) // (the responses the application still holds own their armed timers: descriptors are compared at the end)
+            fdsNow0 = std::min(fdsNow0, r.baselineFds);
         if (peersNow || fdsNow0 > r.baselineFds)
             ctx.violation("c08:connection-not-released-when-the-client-is-gone:only-the-time-out-would-reap-it", d + "\"peers\":" + std::to_string(peersNow) + ",\"descriptors_over_baseline\":" + std::to_string((long)fdsNow0 - (long)r.baselineFds) + "}");
     }
@@ -352,6 +383,10 @@ static void run_history(const History& h, vr::Ctx& ctx, uint64_t& steps)
         sim::tick(500);
         after(false);
     }
+    // the application lets go of the responses it kept (their time-outs have fired or are disarmed here)
+    gParked.clear();
+    gParkNow = false;
+    steps += sim::settle();
 
     // ---- oracle -----------------------------------------------------------------------------------------
     std::map<size_t, std::vector<int>> perPeer;
@@ -558,6 +593,7 @@ int main(int argc, char** argv)
     gFaults         = opt.geti("faults", 0);
     gTickMs           = opt.geti("tick", 500);
     gHandlerTimeoutMs = opt.geti("handler-timeout-ms", 0);
+    gPark             = opt.geti("park", 0) != 0;
     if (opt.geti("files", 0))
     {
         // responses are files: a response in flight holds one more descriptor, which has to go with the connection
@@ -610,7 +646,7 @@ int main(int argc, char** argv)
     static uint64_t nHist;
     static bool bursts;
     nHist           = (gHistories.size() + kBlock - 1) / kBlock;
-    bursts          = !gFaults && gServeFile.empty() && gHandlerTimeoutMs == 0 && !opt.kv.count("history"); // (plain part only)
+    bursts          = !gFaults && gServeFile.empty() && gHandlerTimeoutMs == 0 && !gPark && !opt.kv.count("history"); // (plain part only)
     uint64_t ncases = nHist + (bursts ? sizeof kBursts / sizeof kBursts[0] : 0);
     return vr::run(opt, ncases, [](uint64_t idx, vr::Ctx& ctx) {
         uint64_t steps = 0, execs = 0;
